@@ -6,6 +6,30 @@ def hx(bs):
     return ''.join('%02x' % b for b in bs) or '-'
 
 ALPHA = [0x61, 0x20, 0x0a, 0x80, 0x01, 0x41]   # a, space, \n, high bit, control, A
+# the high-bit twin (c | 0x80) of every character the helpers treat specially: a table indexed with c & 0x7f, an
+# isascii() shortcut or a signed-char comparison confuses exactly these with their ASCII partners
+TWINS = [0xe1, 0xa0, 0x8a, 0xc1]               # twins of a, space, \n, A
+ALPHA_T = ALPHA + TWINS
+WS = [0x20, 0x09, 0x0a, 0x0b, 0x0c, 0x0d]
+KMAX = 14
+
+
+def pow2_lengths(kmax=KMAX, kmin=0):
+    """every 2^k - 1, 2^k, 2^k + 1 for kmin <= k <= kmax"""
+    s = set()
+    for k in range(kmin, kmax + 1):
+        s.update([2 ** k - 1, 2 ** k, 2 ** k + 1])
+    return sorted(s)
+
+
+def pat(n, salt=0):
+    """n NUL-free bytes walking through the other values (position-dependent).  0xa5 is left out: it is the harness's
+    paint byte, and lv_putcells shows a destination cell that was uninitialised and now holds 0xa5 as "??"."""
+    return [(b if b != 0xa5 else 0x5a) for b in (1 + ((i * 131 + salt * 29 + n) % 255) for i in range(n))]
+
+
+def cells(bs):
+    return ''.join('??' if c is None else '%02x' % c for c in bs) or '-'
 
 def strings_upto(n, alpha):
     for l in range(n + 1):
@@ -17,7 +41,10 @@ class C13(vlib.PropertyCheck):
     family = 'c13'
     harness = 'c13.c'
     nontrivial_rule = ('exhaustive enumeration of (size, source, destination) triples and of strings over '
-                       '{a, space, newline, 0x80, 0x01, A}; a case is non-trivial when the model result is not a '
+                       '{a, space, newline, 0x80, 0x01, A} plus the high-bit twins {0xe1, 0xa0, 0x8a, 0xc1}; every byte value '
+                       '0..255 through every in-place helper; sizes, counts and string lengths 2^k-1, 2^k, 2^k+1 for k <= 14 '
+                       '(quick: every k <= 11 and one seed-chosen length with k in 12..14 for the helpers whose list model is '
+                       'quadratic, every k for the others); a case is non-trivial when the model result is not a '
                        'refusal/fault and the string argument is non-empty or a boundary (size 1, empty string); '
                        'distinct = distinct case lines')
     assumptions = ['inputs are valid C strings in exactly sized heap blocks (the harness allocates them so)',
@@ -29,7 +56,9 @@ class C13(vlib.PropertyCheck):
               'byte strings) proved in Rocq about Gallina mirrors of spiftool_safe_strncpy/strncat/substr/downcase/upcase/safe_str; '
               'chomp, condense_whitespace and strrev are modelled and tied by the correspondence check. The model is tied to the '
               'current tree by running its extracted OCaml form and the ASan build of src/strings.c on the same exhaustively enumerated '
-              'small cases plus random long strings; a mismatch on an observable the property constrains is a failing input.'),
+              'small cases (strings over {a, space, newline, 0x80, 0x01, A} and the high-bit twins 0xe1, 0xa0, 0x8a, 0xc1), every byte '
+              'value through every helper, sizes/counts/lengths 2^k-1, 2^k, 2^k+1 up to 16385 and random long strings over all byte '
+              'values; a mismatch on an observable the property constrains is a failing input.'),
         design_ref='DESIGN.md section 7, C13')
 
     def gen(self, tier, rng):
@@ -61,9 +90,11 @@ class C13(vlib.PropertyCheck):
             for idx in rngv:
                 for cnt in rngv:
                     cases.append('substr %d %d %s' % (idx, cnt, hx(s)))
-        # in-place helpers: all strings up to length L over the alphabet
+        # in-place helpers: all strings up to length L over the alphabet and the high-bit twins of its special characters
         L = 4 if tier == 'quick' else 6
-        for s in strings_upto(L, ALPHA):
+        LT = 4 if tier == 'quick' else 5
+        words = list(strings_upto(L, ALPHA)) + [w for w in strings_upto(LT, ALPHA_T) if any(c in TWINS for c in w)]
+        for s in words:
             h = hx(s + [0]) if True else ''
             tail = rng.choice(['', '7a', '??', '007a'])
             full = (h if h != '-' else '') + tail
@@ -72,15 +103,161 @@ class C13(vlib.PropertyCheck):
             cases.append('condense %s' % h)
             for ln in sorted(set([0, len(s) // 2, len(s), len(s) + 1])):
                 cases.append('safestr %d %s' % (ln, full if len(full) // 2 >= ln else h))
-        # long random strings
-        for _ in range(200 if tier == 'quick' else 5000):
+        # every byte value through every in-place helper: alone, between letters, next to its high-bit twin and to blanks
+        for c in range(1, 256):
+            tw = (c ^ 0x80) or 0x41
+            for s in ([c], [0x61, c, 0x5a], [c, tw, c], [0x20, c, 0x20, tw, 0x0a], [c, 0x0a], [c, c]):
+                h = hx(s + [0])
+                for op in ('down', 'up', 'chomp', 'strrev', 'condense'):
+                    cases.append('%s %s' % (op, h))
+                cases.append('safestr %d %s' % (len(s), h))
+            cases.append('strncpy 4 %s 7a7a7a7a' % hx([c, tw, c, 0x61]))
+            cases.append('strncat 5 %s %s' % (hx([tw, c]), hx([c, tw, 0, 0x7a, 0x7a])))
+            cases.append('substr 1 2 %s' % hx([0x61, c, tw, 0x62]))
+        # long random strings over all byte values, blanks and twins of blanks over-represented
+        for _ in range(400 if tier == 'quick' else 8000):
             n = rng.choice([7, 8, 9, 31, 64, 200])
-            s = [rng.choice(ALPHA + [0x62, 0x09, 0x7f, 0xff]) for _ in range(n)]
-            op = rng.choice(['down', 'up', 'chomp', 'strrev', 'condense'])
-            cases.append('%s %s' % (op, hx(s + [0])))
+            m = rng.random()
+            if m < 0.4:
+                alpha = ALPHA + [0x62, 0x09, 0x7f, 0xff]
+            elif m < 0.7:
+                alpha = ALPHA_T + WS + [c | 0x80 for c in WS] + [0x40, 0x5b, 0x60, 0x7b, 0xc0, 0xdb, 0xe0, 0xfb, 0xda, 0xfa]
+            else:
+                alpha = WS + [rng.randrange(1, 256) for _ in range(12)]
+            s = [rng.choice(alpha) for _ in range(n)]
+            op = rng.choice(['down', 'up', 'chomp', 'strrev', 'condense', 'safestr'])
+            if op == 'safestr':
+                cases.append('safestr %d %s' % (rng.choice([n, n, n - 1, n // 2]), hx(s + [0])))
+            else:
+                cases.append('%s %s' % (op, hx(s + [0])))
+        cases += self.boundary_cases(tier, rng)
+        return cases
+
+    def boundary_cases(self, tier, rng):
+        """sizes, counts and string lengths on every power of two and its neighbours.  The list model of strncpy,
+        strncat, substr, strrev and condense_whitespace is quadratic (8-15 s at 16 KB, 0.1-0.2 s at 2 KB): quick runs them at
+        every k <= 11 and at ONE seed-chosen length with k in 12..14 each, thorough at every length; the linear
+        helpers run at every length in both tiers."""
+        cases = []
+        quick = (tier == 'quick')
+        small = pow2_lengths(11)
+        big = [x for x in pow2_lengths(KMAX, 12) if x not in small]
+        lin = small + big
+
+        def quad(op):
+            if not quick:
+                return lin
+            return small + [rng.choice(big)]
+
+        # safe_strncpy: size L with a source shorter by one / exactly fitting / longer; uninitialised destination
+        for L in quad('strncpy'):
+            if L < 1:
+                continue
+            dest = cells([None] * L)
+            for sl in sorted(set([max(L - 2, 0), L - 1, L, L + 3])) if L <= 2049 else [rng.choice([L - 1, L])]:
+                cases.append('strncpy %d %s %s' % (L, hx(pat(sl)), dest))
+            if L <= 2049:
+                # source length on the boundary, destination larger
+                cases.append('strncpy %d %s %s' % (L + 5, hx(pat(L, 1)), cells([0x7a] * (L + 5))))
+        # safe_strncat: size L, existing text + source filling it exactly / one short / overflowing
+        for L in quad('strncat'):
+            if L < 2:
+                continue
+            for dl in sorted(set([0, 1, L // 2, L - 2, L - 1])) if L <= 257 else ([L // 2, L - 1] if L <= 2049 else [L // 2]):
+                for sl in sorted(set([max(L - dl - 2, 0), L - dl - 1, L - dl])) if L <= 2049 else [rng.choice([L - dl - 1, L - dl])]:
+                    d = pat(dl, 2) + [0] + [None] * (L - dl - 1)
+                    cases.append('strncat %d %s %s' % (L, hx(pat(sl, 3)), cells(d)))
+        # substr: count / index / string length on the boundary
+        for L in quad('substr'):
+            if L < 1:
+                continue
+            s = hx(pat(L + 2))
+            cases.append('substr 1 %d %s' % (L, s))
+            if L <= 2049 or not quick:
+                cases.append('substr 0 %d %s' % (L, hx(pat(L))))
+                cases.append('substr -%d %d %s' % (L, L + 1, s))
+                cases.append('substr %d 5 %s' % (L, s))
+                cases.append('substr 0 -1 %s' % hx(pat(L + 1)))
+        # in-place helpers on strings of length L (terminator in the last cell of an exactly sized block)
+        for L in lin:
+            base = pat(L, 4)
+            # letters of both cases and their twins in front, at the end and around the middle
+            for j, c in zip((0, L // 2, L - 1), (0x41, 0xe1, 0x7a)):
+                if 0 <= j < L:
+                    base[j] = c
+            h = hx(base + [0])
+            for op in ('down', 'up'):
+                cases.append('%s %s' % (op, h))
+            cases.append('chomp %s' % hx(base + [0x0a, 0]))
+            cases.append('chomp %s' % hx([0x20] + base[1:-1] + [0x0a, 0x20, 0]) if L >= 2 else 'chomp 200a00')
+            cases.append('safestr %d %s' % (min(L, 65535), h))
+            if L >= 1:
+                cases.append('safestr %d %s' % (min(L - 1, 65535), h))
+        for L in quad('strrev'):
+            cases.append('strrev %s' % hx(pat(L, 5) + [0]))
+        for L in quad('condense'):
+            # blanks in runs: the condensed result and the original both cross the boundary
+            body = pat(L, 6)
+            for j in range(3, L, 7):
+                body[j] = 0x20
+                if j + 1 < L:
+                    body[j + 1] = 0x09
+            cases.append('condense %s' % hx(body + [0]))
+            if L <= 2049 and L >= 2:
+                cases.append('condense %s' % hx([0x20] * (L - 1) + [0x61, 0]))
+                cases.append('condense %s' % hx([0x61 if i % 2 else 0x20 for i in range(L)] + [0]))
         return cases
 
     def nontrivial(self, case, mout):
         return not mout.startswith('FAULT') and mout not in ('NULL',)
+
+
+# The extracted model is a single-threaded list program; the few multi-kilobyte cases cost seconds each.  Run it on
+# stripes of the case file in parallel (each case is independent, the results are those of one sequential run).
+_seq_run_model = vlib.run_model
+
+def _par_run_model(exe, cases_path, ncases, timeout=900):
+    import os, subprocess
+    jobs = min(max(1, (os.cpu_count() or 2) - 2), 12)
+    if ncases < 2000 or jobs < 2 or not os.path.basename(exe).startswith('c13_'):
+        return _seq_run_model(exe, cases_path, ncases, timeout=timeout)
+    with open(cases_path) as f:
+        lines = f.readlines()
+    procs = []
+    for j in range(jobs):
+        part = lines[j::jobs]
+        if not part:
+            break
+        pp = '%s.part%d' % (cases_path, j)
+        with open(pp, 'w') as f:
+            f.writelines(part)
+        of = open(pp + '.out', 'wb')
+        procs.append((j, pp, subprocess.Popen([exe, pp], stdout=of, stderr=subprocess.PIPE,
+                                               env=dict(os.environ, OCAMLRUNPARAM='l=512M'))))
+        of.close()
+    results = [None] * ncases
+    rc_all, err_all = 0, ''
+    for off, pp, pr in procs:
+        try:
+            _, e = pr.communicate(timeout=timeout)
+        except subprocess.TimeoutExpired:
+            pr.kill()
+            _, e = pr.communicate()
+            rc_all, err_all = -9, err_all + '[timeout]'
+        rc_all = rc_all or pr.returncode
+        err_all += e.decode(errors='replace')[-500:]
+        with open(pp + '.out', 'rb') as f:
+            o = f.read()
+        os.unlink(pp + '.out')
+        for line in o.decode(errors='replace').split('\n'):
+            if line.startswith('#'):
+                sp = line.find(' ')
+                k = off + int(line[1:sp]) * jobs
+                if k < ncases:
+                    results[k] = line[sp + 1:]
+        os.unlink(pp)
+    return results, (rc_all, err_all)
+
+vlib.run_model = _par_run_model
 
 CHECK = C13()
